@@ -120,6 +120,9 @@ class Ops:
             return self.inf_arith(op, a, b)
         if isinstance(a, str) and isinstance(b, str) and op == 'Add':
             return a + b
+        if op == 'Add' and (isinstance(a, str) or (isinstance(a, SV) and a.kind == 'str')) \
+                and (isinstance(b, str) or (isinstance(b, SV) and b.kind == 'str')):
+            return self.ctx.engine.fstring_value(self.ctx, [a, b])       # string concatenation
         if isinstance(a, (list, tuple)) and isinstance(b, (list, tuple)) and op == 'Add':
             return a + b
         if isinstance(a, list) and op == 'Mult' and isinstance(b, int):
